@@ -22,7 +22,9 @@
 
 import random
 from collections import deque
-from typing import TYPE_CHECKING
+from typing import TYPE_CHECKING, Set
+
+from .._dns import DNSRecord
 
 from .._utils.time import current_time_millis, millis_to_seconds
 from .answers import (
@@ -85,6 +87,15 @@ class MulticastOutgoingQueue:
         else:
             loop.call_at(loop.time() + millis_to_seconds(random_delay), self.async_ready)
         self.queue.append(AnswerGroup(send_after, send_before, answers))
+
+    def async_remove_answers(self, records: Set[DNSRecord]) -> None:
+        """Remove records that have been withdrawn from the outgoing queue."""
+        for pending in self.queue:
+            for record in records:
+                pending.answers.pop(record, None)
+            for answer, additionals in pending.answers.items():
+                if not additionals.isdisjoint(records):
+                    pending.answers[answer] = additionals.difference(records)
 
     def _remove_answers_from_queue(self, answers: _AnswerWithAdditionalsType) -> None:
         """Remove a set of answers from the outgoing queue."""
